@@ -36,7 +36,7 @@ func (h *history) resolve() {
 	}
 }
 
-var coreObjs = map[string]bool{"se-a": true, "se-a2": true, "vs-a": true, "dr-a": true, "sidecar-ns1": true, "k8s-slice": true, "pa-ns1": true, "we-w": true, "k8s-hl-slice": true}
+var coreObjs = map[string]bool{"se-a": true, "se-a2": true, "vs-a": true, "dr-a": true, "sidecar-ns1": true, "k8s-slice": true, "pa-ns1": true, "we-w": true, "k8s-hl-slice": true, "we-w2": true}
 
 // coldMemo: per worker process, cold-server results per object set
 var coldMemo = map[string][]snapshot{}
@@ -182,6 +182,13 @@ func runHistory(t *testing.T, h history, mode string) (fs []finding, rs runStats
 			}
 			points = append(points, point{append(ustate(nil), st...), snaps, label})
 			batch = nil
+		}
+		if n := os.Getenv("VERIF_DUMP_RESOURCE"); n != "" {
+			for _, ty := range clientTypes {
+				if b, ok := sotw[0].snapshot()[ty][n]; ok {
+					fmt.Printf("DUMP %s %s held by %s:\n%s\n", short(ty), n, sotw[0].spec.Name, textOf(ty, b))
+				}
+			}
 		}
 		if os.Getenv("VERIF_VERBOSE") != "" {
 			for _, c := range all {
